@@ -6,6 +6,7 @@ import (
 	"errors"
 	"fmt"
 	"net/http"
+	"net/http/httptest"
 	"strings"
 	"testing"
 	"testing/synctest"
@@ -645,6 +646,7 @@ func TestC15(t *testing.T) {
 			// sequential cases are replayed by re-running the family
 			c15Sequential(t, c)
 			c15PartialOversize(t, c)
+			c15EndsBeforeUserCode(t, c)
 			return
 		}
 		schedRoundRobin = k.RR
@@ -662,6 +664,7 @@ func TestC15(t *testing.T) {
 	c.Bound("max_client_program_length", map[bool]int{false: 3, true: 4}[thorough])
 	c15Sequential(t, c)
 	c15PartialOversize(t, c)
+	c15EndsBeforeUserCode(t, c)
 	cases := c15Cases(thorough)
 	for i, k := range cases {
 		if !ev.Mine(i) {
@@ -807,6 +810,106 @@ func c15PartialOversize(t *testing.T, c *ev.Collector) {
 						c.Outcome("ok")
 					})
 				}
+			}
+		}
+	}
+}
+
+// slowI is a handler interceptor that takes a while (an auth lookup, a rate
+// limiter) before it lets the call through.
+type slowI struct{ d time.Duration }
+
+func (s slowI) WrapUnary(next connect.UnaryFunc) connect.UnaryFunc {
+	return func(ctx context.Context, r connect.AnyRequest) (connect.AnyResponse, error) {
+		time.Sleep(s.d)
+		return next(ctx, r)
+	}
+}
+func (s slowI) WrapStreamingClient(next connect.StreamingClientFunc) connect.StreamingClientFunc {
+	return next
+}
+func (s slowI) WrapStreamingHandler(next connect.StreamingHandlerFunc) connect.StreamingHandlerFunc {
+	return func(ctx context.Context, c connect.StreamingHandlerConn) error {
+		time.Sleep(s.d)
+		return next(ctx, c)
+	}
+}
+
+// c15EndsBeforeUserCode: handler side, unary calls, a peer without a deadline
+// of its own (another implementation, a gateway that adds the timeout header).
+// The call's context ends - the announced timeout passes, a deadline the
+// server put on the request context passes, or the request context is
+// cancelled - after the request has reached the handler but BEFORE user code is
+// entered: while the request message is still being uploaded, or while a
+// handler interceptor is busy.  User code that never looks at its context
+// would answer normally; the call has ended "before the call" as far as user
+// code is concerned, so the peer must be told canceled / deadline_exceeded,
+// never success.
+func c15EndsBeforeUserCode(t *testing.T, c *ev.Collector) {
+	idx := 0
+	for _, p := range AllProtos {
+		for _, when := range []string{"during-upload", "in-interceptor"} {
+			for _, how := range []string{"timeout-header", "server-deadline", "server-cancel"} {
+				idx++
+				if !ev.Mine(idx) {
+					continue
+				}
+				key := fmt.Sprintf("ends-before-user-code/%s/unary/%s/%s", p, when, how)
+				c.Case(key, true)
+				Bubble(t, func() {
+					entered := false
+					var opts []connect.HandlerOption
+					if when == "in-interceptor" {
+						opts = append(opts, connect.WithInterceptors(slowI{200 * time.Millisecond}))
+					}
+					h := NewHandler(KUnary, func(ctx context.Context, st HStream) error {
+						entered = true
+						return st.Send(&BV{Value: []byte{9}}) // never looks at ctx
+					}, opts...)
+					ctx, cancel := context.WithCancel(context.Background())
+					defer cancel()
+					body := &endingReader{data: RawBody(p, KUnary, false, Payload(40, 0x33))}
+					if when == "during-upload" {
+						body.pause = 200 * time.Millisecond
+					}
+					want := "deadline_exceeded"
+					switch how {
+					case "server-deadline":
+						var c2 context.CancelFunc
+						ctx, c2 = context.WithTimeout(ctx, 50*time.Millisecond)
+						defer c2()
+					case "server-cancel":
+						want = "canceled"
+						go func() { time.Sleep(50 * time.Millisecond); cancel() }()
+					}
+					req := RawRequest(ctx, p, KUnary, false, body)
+					if how == "timeout-header" {
+						if p == PConnect {
+							req.Header.Set("Connect-Timeout-Ms", "50")
+						} else {
+							req.Header.Set("Grpc-Timeout", "50m")
+						}
+					}
+					rec := httptest.NewRecorder()
+					g := GuardedFor(time.Hour, func() { h.ServeHTTP(rec, req) })
+					c.AddTransitions(3)
+					c.AddStates(3)
+					c.AddTraces(1)
+					tags := []string{"proto=" + p.String(), "kind=unary", "side=handler", "ends-before-user-code", when, how}
+					if g.Hung || g.Panicked {
+						c.Violation("TestC15", "terminates", "hang-or-panic", tags, key, "%s: hung=%v panic=%v", key, g.Hung, g.Panic)
+						c.Outcome("violation")
+						BailIfStuck(c, g)
+						return
+					}
+					code := respCode(p, KUnary, rec)
+					if code != want {
+						c.Violation("TestC15", "no-success-after", "code="+code, tags, key, "%s: the call's context ended 150 ms before user code could be entered (user code entered: %v); the peer was answered %s (HTTP %d), want %s", key, entered, code, rec.Code, want)
+						c.Outcome("violation")
+						return
+					}
+					c.Outcome("ok")
+				})
 			}
 		}
 	}
